@@ -342,4 +342,86 @@ theorem inplace_alias_as_is_counterexample_exec :
     simp [hexec, St.ctxOf, findInst, derefCtx, deref, addr, lookup, evalVar, has, globalKey, mutAt, mutTop, Meth.evalF,
       Bind.evalF, alloc, assignCtx, HSt.setCtx, St.setCtx, replaceInst, Bind.set]
 
+/-! ## Progress of the caller -/
+
+/-- callee side: `return e` ends the callee's run, and its `_return_value` is the value of `e` in the
+    callee's own context -/
+theorem return_ends_run (flows : List (String × FlowDef)) (fuel : Nat) (s : St) (n : Nat) (e : Expr) (rest : List Stmt)
+    (f : Inst) (hf : findInst n s.insts = some f) :
+    exec flows (fuel + 1) s n (.ret e :: rest) = (s.setCtx n s.globals (returnCtx (s.evalIn n e) (s.ctxOf n)), .finished) ∧
+    lookup returnKey ((s.setCtx n s.globals (returnCtx (s.evalIn n e) (s.ctxOf n))).ctxOf n) = some (s.evalIn n e) := by
+  refine ⟨by simp only [exec], ?_⟩
+  rw [ctxOf_of_find (find_setCtx_self s n _ _ f hf)]
+  simp [returnCtx, lookup_set_eq]
+
+/-- **Progress of the caller** (`$x = await flow(..)`), partial: explicit hypotheses for the two
+    internal-event matches.  If the callee's synchronous run ends `finished` with `_return_value = v`,
+    the caller's `match FlowStarted(<call arguments>)` (pattern evaluated after the callee's run, as the
+    code does) accepts the callee's FlowStarted event (`handshake`) and `match $ref.Finished()` accepts its
+    FlowFinished event (`finishedMatch`), then the `await` RETURNS: the caller goes on with the statements
+    after the call, in the state the callee left, with `$x` bound to `v` — reading `$x` there yields `v`.
+
+    Full statement (not proved): the two match hypotheses hold whenever the call is well-formed and the
+    argument values contain no regex / comparison objects and are not changed by the callee's run —
+    reflexivity of the C04 matcher on such values is missing; both hypotheses are evaluated by the model on
+    every generated program and compared with what the real interpreter did (the caller's later events). -/
+theorem await_progress_partial (flows : List (String × FlowDef)) (fuel : Nat) (s : St) (u : Nat) (x flow : String)
+    (pos : List Expr) (named : List (String × Expr)) (rest : List Stmt) (d : FlowDef) (f0 f1 f2 : Inst) (s2 : St) (v : Val)
+    (hd : findFlow flow flows = some d)
+    (hc : createFlowInstance flow d.params d.rets
+        (startArgs (userArgs s.globals (s.ctxOf u) pos named) .await flow s.next u) = .ok f0)
+    (hs : startFlow false (startArgs (userArgs s.globals (s.ctxOf u) pos named) .await flow s.next u) f0 = .ok f1)
+    (hrun : exec flows fuel { s with insts := s.insts ++ [(s.next, f1)], next := s.next + 1 } s.next d.body = (s2, .finished))
+    (hf2 : findInst s.next s2.insts = some f2)
+    (hhs : handshake (matchArgs (userArgs s2.globals (s2.ctxOf u) pos named) flow s.next) s.next f2 = true)
+    (hfm : finishedMatch s.next f2 = true)
+    (hret : lookup returnKey f2.context = some v) :
+    exec flows (fuel + 1) s u (.call .await (some x) flow pos named :: rest) =
+      exec flows fuel (s2.setCtx u (assignCtx x v s2.globals (s2.ctxOf u)).1 (assignCtx x v s2.globals (s2.ctxOf u)).2) u rest ∧
+    evalVar (assignCtx x v s2.globals (s2.ctxOf u)).1 (assignCtx x v s2.globals (s2.ctxOf u)).2 x = v := by
+  refine ⟨?_, evalVar_assignCtx x v _ _⟩
+  have hfin : lookup (.name "return_value") (finishedArgs (uidVal s.next) f2) = some v := by
+    simp [finishedArgs, hret, lookup_set_eq]
+  simp only [exec, hd, hc, hs, hrun, hf2, Option.getD_some, hhs, hfm, captureReturn, hfin]
+  simp
+
+/-- the callee instance of `flow fa: return 7` (uid 1, called from instance 0) after its run -/
+def pf : Inst := { flowId := "fa", arguments := [], context := [(returnKey, .int 7)], parent := some (uidVal 0) }
+
+theorem pf_handshake : handshake (matchArgs (userArgs [] [] [] []) "fa" 1) 1 pf = true := by
+  simp [handshake, evMatches, flowObj, matchArgs, userArgs, posArgs, update, Bind.set, toDict, keyStr, uidVal, pf,
+    Match.refEvent, Match.FlowObj.matchEvent, Match.eventScore, Match.eventCore, Generated.C04.evFlowStarted,
+    Generated.C04.internalEventsAll, Generated.C04.argumentFilter, Generated.C04.evStartFlow, Generated.C04.evFlowFinished,
+    Generated.C04.evFlowFailed, Match.dictUpdate, Match.lookup, Match.score, Match.scoreDict, Val.isInstanceOfTypeOf,
+    Val.pyType, PyType.isSub, Val.scalarEq]
+
+theorem pf_finished : finishedMatch 1 pf = true := by
+  simp [finishedMatch, evMatches, flowObj, toDict, keyStr, pf, lookup, returnKey,
+    Match.refEvent, Match.FlowObj.matchEvent, Match.eventScore, Match.eventCore, Generated.C04.evFlowStarted,
+    Generated.C04.internalEventsAll, Generated.C04.argumentFilter, Generated.C04.evStartFlow, Generated.C04.evFlowFinished,
+    Generated.C04.evFlowFailed, Match.dictUpdate, Match.lookup, Match.score, Match.scoreDict, Val.isInstanceOfTypeOf,
+    Val.pyType, PyType.isSub, Val.scalarEq, Match.setKey]
+
+def s0 : St := { insts := [(0, { flowId := "main", arguments := [], context := [] })], next := 1 }
+def fl : List (String × FlowDef) := [("fa", { params := [], rets := [], body := [.ret (.lit (.int 7))] })]
+
+def f0 : Inst := { flowId := "fa", arguments := [], context := [] }
+def f1 : Inst := { flowId := "fa", arguments := [], context := [], parent := some (uidVal 0) }
+def s2 : St := { insts := [(0, { flowId := "main", arguments := [], context := [] }), (1, pf)], next := 2 }
+
+/-- non-vacuity of `await_progress_partial`: `flow fa: return 7`, `main: $x = await fa` — all hypotheses hold
+    (the two matches evaluated through the C04 matcher model) -/
+example :
+    findFlow "fa" fl = some { params := [], rets := [], body := [.ret (.lit (.int 7))] } ∧
+    createFlowInstance "fa" [] [] (startArgs (userArgs s0.globals (s0.ctxOf 0) [] []) .await "fa" s0.next 0) = .ok f0 ∧
+    startFlow false (startArgs (userArgs s0.globals (s0.ctxOf 0) [] []) .await "fa" s0.next 0) f0 = .ok f1 ∧
+    exec fl 1 { s0 with insts := s0.insts ++ [(s0.next, f1)], next := s0.next + 1 } s0.next [.ret (.lit (.int 7))] = (s2, .finished) ∧
+    findInst s0.next s2.insts = some pf ∧
+    handshake (matchArgs (userArgs s2.globals (s2.ctxOf 0) [] []) "fa" s0.next) s0.next pf = true ∧
+    finishedMatch s0.next pf = true ∧ lookup returnKey pf.context = some (.int 7) := by
+  refine ⟨by simp [findFlow, fl], rfl, ?_, ?_, ?_, ?_, pf_finished, by simp [pf, lookup]⟩
+  · simp [startFlow, startArgs, matchArgs, userArgs, posArgs, update, Bind.set, lookup, has, startLoop, keys, s0, f0, f1, uidVal]
+  · simp [exec, s0, s2, f1, pf, St.setCtx, St.ctxOf, findInst, replaceInst, returnCtx, St.evalIn, eval, Bind.set, returnKey]
+  · simp [s0, s2, findInst]
+  · simpa [s0, s2, St.ctxOf, findInst] using pf_handshake
 end NemoVerif.C08
